@@ -1,0 +1,212 @@
+//go:build verif
+
+package main
+
+import (
+	"bufio"
+	"encoding/hex"
+	"encoding/json"
+	"fmt"
+	"os"
+	"sort"
+	"strings"
+	"testing"
+
+	"github.com/vishvananda/netlink"
+)
+
+// TestVerifDriver is the line-protocol driver of the verification harness for this package
+// (package main cannot be imported).  It reads operations from $VERIF_IN and writes one canonical
+// outcome per line to $VERIF_OUT.  It must run in private mount and network namespaces: it rewrites
+// /var/run/eni/node_capabilities and creates/removes a link named cilium_net.
+//
+//	chain <ebpf> <edt> <policy> <switchV2> <prev t|f|-> <link 0|1> <plugins as token array>
+func TestVerifDriver(t *testing.T) {
+	in, out := os.Getenv("VERIF_IN"), os.Getenv("VERIF_OUT")
+	if in == "" || out == "" {
+		t.Skip("VERIF_IN / VERIF_OUT not set")
+	}
+	fi, err := os.Open(in)
+	if err != nil {
+		t.Fatal(err)
+	}
+	defer fi.Close()
+	fo, err := os.Create(out)
+	if err != nil {
+		t.Fatal(err)
+	}
+	defer fo.Close()
+	w := bufio.NewWriter(fo)
+	defer w.Flush()
+	sc := bufio.NewScanner(fi)
+	sc.Buffer(make([]byte, 1<<20), 1<<26)
+	for sc.Scan() {
+		fmt.Fprintln(w, verifChain(sc.Text()))
+	}
+}
+
+func verifChain(line string) (res string) {
+	defer func() {
+		if r := recover(); r != nil {
+			res = "panic"
+		}
+	}()
+	f := strings.Fields(line)
+	if len(f) < 8 || f[0] != "cni.chain" {
+		return "bad-op"
+	}
+	feat := &feature{EBPF: f[1] == "1", EDT: f[2] == "1", EnableNetworkPolicy: f[3] == "1"}
+	sw := f[4] == "1"
+	_switchDataPathV2 = func() bool { return sw }
+	_ = os.MkdirAll("/var/run/eni", 0o755)
+	switch f[5] {
+	case "t":
+		_ = os.WriteFile(nodeCapabilitiesFile, []byte("has_cilium_chainer = true\n"), 0o644)
+	case "f":
+		_ = os.WriteFile(nodeCapabilitiesFile, []byte("has_cilium_chainer = false\n"), 0o644)
+	default:
+		_ = os.Remove(nodeCapabilitiesFile)
+	}
+	if l, err := netlink.LinkByName("cilium_net"); err == nil {
+		if f[6] != "1" {
+			_ = netlink.LinkDel(l)
+		}
+	} else if f[6] == "1" {
+		if err := netlink.LinkAdd(&netlink.Veth{LinkAttrs: netlink.LinkAttrs{Name: "cilium_net"}, PeerName: "cilium_host"}); err != nil {
+			return "env-error:" + err.Error()
+		}
+	}
+	v, rest, ok := verifParse(f[7:])
+	arr, isArr := v.([]any)
+	if !ok || len(rest) != 0 || !isArr {
+		return "bad-op"
+	}
+	var configs [][]byte
+	for _, p := range arr {
+		b, _ := json.Marshal(p)
+		configs = append(configs, b)
+	}
+	out, err := mergeConfigList(configs, feat)
+	if err != nil {
+		switch {
+		case strings.Contains(err.Error(), "type not found"):
+			return "err:type"
+		case strings.Contains(err.Error(), "network_policy_provider"):
+			return "err:npp"
+		case strings.Contains(err.Error(), "invalid datapath"):
+			return "err:datapath"
+		}
+		return "err:other"
+	}
+	var doc map[string]any
+	if err := json.Unmarshal([]byte(out), &doc); err != nil {
+		return "invalid-json"
+	}
+	if doc["cniVersion"] != "0.4.0" || doc["name"] != "terway-chainer" {
+		return "bad-header"
+	}
+	plugins, _ := doc["plugins"].([]any)
+	return verifShow(plugins)
+}
+
+func verifParse(t []string) (any, []string, bool) {
+	if len(t) == 0 {
+		return nil, nil, false
+	}
+	switch tok := t[0]; {
+	case tok == "n":
+		return nil, t[1:], true
+	case tok == "t":
+		return true, t[1:], true
+	case tok == "f":
+		return false, t[1:], true
+	case strings.HasPrefix(tok, "i:"):
+		return json.Number(tok[2:]), t[1:], true
+	case strings.HasPrefix(tok, "s:"):
+		return verifUnhex(tok[2:]), t[1:], true
+	case tok == "[":
+		arr := []any{}
+		r := t[1:]
+		for len(r) > 0 && r[0] != "]" {
+			v, r2, ok := verifParse(r)
+			if !ok {
+				return nil, nil, false
+			}
+			arr, r = append(arr, v), r2
+		}
+		if len(r) == 0 {
+			return nil, nil, false
+		}
+		return arr, r[1:], true
+	case tok == "{":
+		m := map[string]any{}
+		r := t[1:]
+		for len(r) > 0 && r[0] != "}" {
+			if !strings.HasPrefix(r[0], "k:") {
+				return nil, nil, false
+			}
+			k := verifUnhex(r[0][2:])
+			v, r2, ok := verifParse(r[1:])
+			if !ok {
+				return nil, nil, false
+			}
+			m[k], r = v, r2
+		}
+		if len(r) == 0 {
+			return nil, nil, false
+		}
+		return m, r[1:], true
+	}
+	return nil, nil, false
+}
+
+func verifUnhex(s string) string {
+	if s == "-" {
+		return ""
+	}
+	b, _ := hex.DecodeString(s)
+	return string(b)
+}
+
+func verifHex(s string) string {
+	if s == "" {
+		return "-"
+	}
+	return hex.EncodeToString([]byte(s))
+}
+
+func verifShow(v any) string {
+	switch x := v.(type) {
+	case nil:
+		return "n"
+	case bool:
+		if x {
+			return "t"
+		}
+		return "f"
+	case json.Number:
+		return "i:" + x.String()
+	case float64:
+		return fmt.Sprintf("i:%d", int64(x))
+	case string:
+		return "s:" + verifHex(x)
+	case []any:
+		s := "[ "
+		for _, e := range x {
+			s += verifShow(e) + " "
+		}
+		return s + "]"
+	case map[string]any:
+		keys := make([]string, 0, len(x))
+		for k := range x {
+			keys = append(keys, k)
+		}
+		sort.Strings(keys)
+		s := "{ "
+		for _, k := range keys {
+			s += "k:" + verifHex(k) + " " + verifShow(x[k]) + " "
+		}
+		return s + "}"
+	}
+	return "?"
+}
